@@ -1,8 +1,631 @@
-import Bkl
+/-
+  C10 — "`$merge` and `$replace` behave as if the referenced subtree were written inline."
+
+  One-step laws for `process1` (process1.go, phase 3), the laws of reference resolution
+  (`get`, `getCrossDoc`, `getPath`), the frame property of the threaded document root, and
+  the cycle check.  Helper lemmas: `BklProofs/Lemmas/Process1.lean`.
+-/
+import Bkl.Process2
+import BklProofs.Lemmas.Process1
+set_option linter.unusedVariables false
 namespace Bkl
-/-- A `$replace` map yields the evaluation of the referenced value; local content is discarded
-    (one-step law; placeholder until the full file lands). -/
-theorem C10_string_not_ref (fuel : Nat) (docs : List Val) (root : Val) (loc : Loc) (b : Bool) :
-    process1 (fuel + 1) docs root loc (.bool b) = .ok (.bool b, root) := by
-  simp [process1]; rfl
+
+/-! ## `$replace` on a map -/
+
+/-- A map carrying `$replace: ref` (and no `$merge`) evaluates to the evaluation of the referenced
+    value (as a copy: `loc = none`); the local content is discarded; the root is not touched by
+    this step. -/
+theorem C10_replace_map {fuel : Nat} {docs : List Val} {root : Val} {loc : Loc} {kvs : Fields}
+    {ref : Val} (h0 : fget kvs "$merge" = none) (h : fget kvs "$replace" = some ref) :
+    process1 (fuel + 1) docs root loc (.map kvs) =
+      (get root docs ref >>= fun next => process1 fuel docs root none next) :=
+  process1_map_replace h0 h
+
+example : fget [("$replace", Val.str "a"), ("x", .int 1)] "$merge" = none ∧
+    fget [("$replace", Val.str "a"), ("x", .int 1)] "$replace" = some (.str "a") := by decide
+
+/-! ## `$merge` on a map -/
+
+/-- `mergeFields` is exactly the loop of `merge (.map d) (.map s)` when `s` has no
+    `$replace: true`. -/
+theorem C10_merge_is_mergeFields {d s next : Fields} (hr : fhasBool s "$replace" true = false) :
+    merge (.map d) (.map s) = .ok (.map next) ↔ mergeFields d s = .ok next := by
+  rw [merge_map_map, mergeMapMap_noreplace hr]
+  cases mergeFields d s with
+  | error e => constructor <;> (intro h; cases h)
+  | ok r =>
+    constructor
+    · intro h; cases h; rfl
+    · intro h; cases h; rfl
+
+example : fhasBool [("x", Val.int 1)] "$replace" true = false := by decide
+
+/-- Map-level `$merge: ref` where the reference resolves to a map `s` without `$replace: true`:
+    the host becomes `merge local s` (ordinary merge rules, the referenced value layered onto
+    the local content), written back in place, and is evaluated again at the same location. -/
+theorem C10_merge_map {fuel : Nat} {docs : List Val} {root : Val} {loc : Loc} {kvs s : Fields}
+    {ref : Val} (hm : fget kvs "$merge" = some ref)
+    (hg : get (setLoc root loc (.map (fdel kvs "$merge"))) docs ref = .ok (.map s))
+    (hr : fhasBool s "$replace" true = false) :
+    process1 (fuel + 1) docs root loc (.map kvs) =
+      (merge (.map (fdel kvs "$merge")) (.map s) >>= fun nv =>
+        process1 fuel docs (setLoc (setLoc root loc (.map (fdel kvs "$merge"))) loc nv) loc nv) := by
+  rw [process1_map_merge hm, hg, R_bind_ok, merge_map_map, mergeMapMap_noreplace hr]
+  simp only [mergeCont, hr, Bool.false_eq_true, if_false]
+  cases mergeFields (fdel kvs "$merge") s <;> rfl
+
+/-- Same law with the merge result named. -/
+theorem C10_merge_map_ok {fuel : Nat} {docs : List Val} {root : Val} {loc : Loc}
+    {kvs s next : Fields} {ref : Val} (hm : fget kvs "$merge" = some ref)
+    (hg : get (setLoc root loc (.map (fdel kvs "$merge"))) docs ref = .ok (.map s))
+    (hr : fhasBool s "$replace" true = false)
+    (hn : merge (.map (fdel kvs "$merge")) (.map s) = .ok (.map next)) :
+    process1 (fuel + 1) docs root loc (.map kvs) =
+      process1 fuel docs
+        (setLoc (setLoc root loc (.map (fdel kvs "$merge"))) loc (.map next)) loc (.map next) := by
+  rw [C10_merge_map hm hg hr, hn]; rfl
+
+/-- An ordinary merge conflict between the local content and the referenced map is reported. -/
+theorem C10_merge_map_conflict {fuel : Nat} {docs : List Val} {root : Val} {loc : Loc}
+    {kvs s : Fields} {ref : Val} {e : Err} (hm : fget kvs "$merge" = some ref)
+    (hg : get (setLoc root loc (.map (fdel kvs "$merge"))) docs ref = .ok (.map s))
+    (hr : fhasBool s "$replace" true = false)
+    (hn : merge (.map (fdel kvs "$merge")) (.map s) = .error e) :
+    process1 (fuel + 1) docs root loc (.map kvs) = .error e := by
+  rw [C10_merge_map hm hg hr, hn]; rfl
+
+-- non-vacuity: host `{$merge: [b], x: 1}` inside root `{a: host, b: {y: 2}}`
+example :
+    let kvs : Fields := [("$merge", .list [.str "b"]), ("x", .int 1)]
+    let root : Val := .map [("a", .map kvs), ("b", .map [("y", .int 2)])]
+    fget kvs "$merge" = some (.list [.str "b"]) ∧
+    get (setLoc root (some [.key "a"]) (.map (fdel kvs "$merge"))) [] (.list [.str "b"])
+      = .ok (.map [("y", .int 2)]) ∧
+    fhasBool [("y", Val.int 2)] "$replace" true = false ∧
+    merge (.map (fdel kvs "$merge")) (.map [("y", .int 2)])
+      = .ok (.map [("x", .int 1), ("y", .int 2)]) := by
+  exact ⟨by decide, get_list_strs _ _ "b" [], by decide, merge_x_y⟩
+
+-- non-vacuity of the conflict law: `x: 1` merged with `x: 1` is a useless override
+example :
+    merge (.map [("x", .int 1)]) (.map [("x", .int 1)]) = .error .uselessOverride := merge_x_x
+
+/-- referenced value `null`: the local content alone (evaluated again in place) -/
+theorem C10_merge_map_null {fuel : Nat} {docs : List Val} {root : Val} {loc : Loc} {kvs : Fields}
+    {ref : Val} (hm : fget kvs "$merge" = some ref)
+    (hg : get (setLoc root loc (.map (fdel kvs "$merge"))) docs ref = .ok .null) :
+    process1 (fuel + 1) docs root loc (.map kvs) =
+      process1 fuel docs (setLoc root loc (.map (fdel kvs "$merge"))) loc
+        (.map (fdel kvs "$merge")) := by
+  rw [process1_map_merge hm, hg]; rfl
+
+example :
+    let kvs : Fields := [("$merge", .list [.str "b"]), ("x", .int 1)]
+    let root : Val := .map [("a", .map kvs), ("b", .null)]
+    get (setLoc root (some [.key "a"]) (.map (fdel kvs "$merge"))) [] (.list [.str "b"])
+      = .ok .null := get_list_strs _ _ "b" []
+
+/-- referenced scalar / list, empty local content: the referenced value (a copy) -/
+theorem C10_merge_map_other_empty {fuel : Nat} {docs : List Val} {root : Val} {loc : Loc}
+    {kvs : Fields} {ref other : Val} (hm : fget kvs "$merge" = some ref)
+    (hg : get (setLoc root loc (.map (fdel kvs "$merge"))) docs ref = .ok other)
+    (h1 : other.isMap = false) (h2 : other.isNull = false)
+    (he : (fdel kvs "$merge").isEmpty = true) :
+    process1 (fuel + 1) docs root loc (.map kvs) =
+      process1 fuel docs (setLoc root loc (.map (fdel kvs "$merge"))) none other := by
+  rw [process1_map_merge hm, hg, R_bind_ok]
+  cases other <;> simp [Val.isMap, Val.isNull] at h1 h2 <;> simp [mergeCont, he]
+
+example :
+    let kvs : Fields := [("$merge", .list [.str "b"])]
+    let root : Val := .map [("a", .map kvs), ("b", .list [.int 1])]
+    get (setLoc root (some [.key "a"]) (.map (fdel kvs "$merge"))) [] (.list [.str "b"])
+      = .ok (.list [.int 1]) ∧ (fdel kvs "$merge").isEmpty = true :=
+  ⟨get_list_strs _ _ "b" [], by decide⟩
+
+/-- referenced scalar / list, non-empty local content: a type error (as `merge` reports) -/
+theorem C10_merge_map_other_nonempty {fuel : Nat} {docs : List Val} {root : Val} {loc : Loc}
+    {kvs : Fields} {ref other : Val} (hm : fget kvs "$merge" = some ref)
+    (hg : get (setLoc root loc (.map (fdel kvs "$merge"))) docs ref = .ok other)
+    (h1 : other.isMap = false) (h2 : other.isNull = false)
+    (he : (fdel kvs "$merge").isEmpty = false) :
+    process1 (fuel + 1) docs root loc (.map kvs) = .error .invalidType := by
+  rw [process1_map_merge hm, hg, R_bind_ok]
+  cases other <;> simp [Val.isMap, Val.isNull] at h1 h2 <;> simp [mergeCont, he] <;> rfl
+
+example :
+    let kvs : Fields := [("$merge", .list [.str "b"]), ("x", .int 1)]
+    let root : Val := .map [("a", .map kvs), ("b", .list [.int 1])]
+    get (setLoc root (some [.key "a"]) (.map (fdel kvs "$merge"))) [] (.list [.str "b"])
+      = .ok (.list [.int 1]) ∧ (fdel kvs "$merge").isEmpty = false :=
+  ⟨get_list_strs _ _ "b" [], by decide⟩
+
+/-- referenced map carrying `$replace: true`: that map minus the marker (a copy); the host
+    keeps only the deletion of its `$merge` key -/
+theorem C10_merge_map_replace_true {fuel : Nat} {docs : List Val} {root : Val} {loc : Loc}
+    {kvs s : Fields} {ref : Val} (hm : fget kvs "$merge" = some ref)
+    (hg : get (setLoc root loc (.map (fdel kvs "$merge"))) docs ref = .ok (.map s))
+    (hr : fhasBool s "$replace" true = true) :
+    process1 (fuel + 1) docs root loc (.map kvs) =
+      process1 fuel docs (setLoc root loc (.map (fdel kvs "$merge"))) none
+        (.map (fdel s "$replace")) := by
+  rw [process1_map_merge hm, hg, R_bind_ok]
+  simp [mergeCont, hr]
+
+example :
+    let kvs : Fields := [("$merge", .list [.str "b"]), ("x", .int 1)]
+    let root : Val := .map [("a", .map kvs), ("b", .map [("$replace", .bool true), ("y", .int 2)])]
+    get (setLoc root (some [.key "a"]) (.map (fdel kvs "$merge"))) [] (.list [.str "b"])
+      = .ok (.map [("$replace", .bool true), ("y", .int 2)]) ∧
+    fhasBool [("$replace", Val.bool true), ("y", .int 2)] "$replace" true = true :=
+  ⟨get_list_strs _ _ "b" [], by decide⟩
+
+/-- In every sub-case the value that is evaluated next is `merge local referenced`. -/
+theorem C10_merge_map_value {fuel : Nat} {docs : List Val} {root : Val} {loc : Loc} {kvs : Fields}
+    {ref inp : Val} (hm : fget kvs "$merge" = some ref)
+    (hg : get (setLoc root loc (.map (fdel kvs "$merge"))) docs ref = .ok inp) :
+    ∃ loc' : Loc, ∃ root' : Val → Val,
+      process1 (fuel + 1) docs root loc (.map kvs) =
+        (merge (.map (fdel kvs "$merge")) inp >>= fun nv => process1 fuel docs (root' nv) loc' nv) := by
+  rw [process1_map_merge hm, hg, R_bind_ok]
+  cases inp with
+  | map s =>
+    cases hr : fhasBool s "$replace" true with
+    | true =>
+      refine ⟨none, fun _ => setLoc root loc (.map (fdel kvs "$merge")), ?_⟩
+      rw [merge_map_map, mergeMapMap_replace hr]
+      simp [mergeCont, hr]; rfl
+    | false =>
+      refine ⟨loc, fun nv => setLoc (setLoc root loc (.map (fdel kvs "$merge"))) loc nv, ?_⟩
+      rw [merge_map_map, mergeMapMap_noreplace hr]
+      simp only [mergeCont, hr, Bool.false_eq_true, if_false]
+      cases mergeFields (fdel kvs "$merge") s <;> rfl
+  | null =>
+    refine ⟨loc, fun _ => setLoc root loc (.map (fdel kvs "$merge")), ?_⟩
+    rw [merge_map_null]; rfl
+  | bool _ | int _ | flt _ | str _ | list _ =>
+    refine ⟨none, fun _ => setLoc root loc (.map (fdel kvs "$merge")), ?_⟩
+    rw [merge_map_other _ _ rfl rfl]
+    cases he : (fdel kvs "$merge").isEmpty <;> simp [mergeCont, he] <;> rfl
+
+/-! ## string forms -/
+
+/-- `"$merge:<path>"` evaluates to the evaluation of the referenced value. -/
+theorem C10_string_merge {fuel : Nat} {docs : List Val} {root : Val} {loc : Loc} {s p : String}
+    (h : stripPrefix s "$merge:" = some p) :
+    process1 (fuel + 1) docs root loc (.str s) =
+      (get root docs (.str p) >>= process1 fuel docs root none) :=
+  process1_str_merge h
+
+example : stripPrefix "$merge:a" "$merge:" = some "a" := stripPrefix_merge_a
+
+/-- `"$replace:<path>"` likewise. -/
+theorem C10_string_replace {fuel : Nat} {docs : List Val} {root : Val} {loc : Loc} {s p : String}
+    (h0 : stripPrefix s "$merge:" = none) (h : stripPrefix s "$replace:" = some p) :
+    process1 (fuel + 1) docs root loc (.str s) =
+      (get root docs (.str p) >>= process1 fuel docs root none) :=
+  process1_str_replace h0 h
+
+example : stripPrefix "$replace:a" "$merge:" = none ∧
+    stripPrefix "$replace:a" "$replace:" = some "a" :=
+  ⟨stripPrefix_replace_a_merge, stripPrefix_replace_a⟩
+
+/-- A string with neither prefix is returned unchanged, and so is the root. -/
+theorem C10_string_plain {fuel : Nat} {docs : List Val} {root : Val} {loc : Loc} {s : String}
+    (h0 : stripPrefix s "$merge:" = none) (h : stripPrefix s "$replace:" = none) :
+    process1 (fuel + 1) docs root loc (.str s) = .ok (.str s, root) :=
+  process1_str_plain h0 h
+
+example : stripPrefix "hello" "$merge:" = none ∧ stripPrefix "hello" "$replace:" = none :=
+  ⟨stripPrefix_hello_merge, stripPrefix_hello_replace⟩
+
+/-- Non-reference scalars are returned unchanged, and so is the root. -/
+theorem C10_scalar_plain (fuel : Nat) (docs : List Val) (root : Val) (loc : Loc) :
+    process1 (fuel + 1) docs root loc .null = .ok (.null, root) ∧
+    (∀ b, process1 (fuel + 1) docs root loc (.bool b) = .ok (.bool b, root)) ∧
+    (∀ i, process1 (fuel + 1) docs root loc (.int i) = .ok (.int i, root)) ∧
+    (∀ r, process1 (fuel + 1) docs root loc (.flt r) = .ok (.flt r, root)) :=
+  ⟨process1_null _ _ _ _, process1_bool _ _ _ _, process1_int _ _ _ _, process1_flt _ _ _ _⟩
+
+/-! ## list forms -/
+
+/-- A list whose only `{$merge: ref}` entry refers to `ref`: the remaining entries (tagged with
+    their positions) are merged with the referenced list by `mergeListTagged`, then the list is
+    finished as usual (`listFinish`: `{$replace: _}` entry lookup, then entry-wise evaluation). -/
+theorem C10_merge_list {fuel : Nat} {docs : List Val} {root : Val} {loc : Loc} {xs : List Val}
+    {ref : Val} (h : listMerges xs = [ref]) :
+    process1 (fuel + 1) docs root loc (.list xs) =
+      ((get root docs ref >>= fun inp =>
+          match inp with
+          | .list s => mergeListTagged (listObj0 xs) s
+          | .null => pure (listObj0 xs)
+          | _ => throw Err.invalidType) >>=
+        listFinish fuel docs root loc) := by
+  rw [process1_list, h, foldlM_cons]
+  change _ = (mergeRefStep root docs (listObj0 xs) ref >>= listFinish fuel docs root loc)
+  cases mergeRefStep root docs (listObj0 xs) ref <;> rfl
+
+-- `pre ++ [{$merge: ref}] ++ post` without other `{$merge: _}` entries is such a list
+example (ref : Val) :
+    listMerges ([.int 1] ++ [.map [("$merge", ref)]] ++ [.str "x"]) = [ref] :=
+  listMerges_single ref (by decide)
+
+/-- `mergeListTagged` is `mergeListList` (the ordinary list merge) on the untagged entries:
+    same result when it succeeds, same error when it fails — except that a `$match` entry in the
+    referenced list is reported as `unmodelled` (it would merge into a host entry in place). -/
+theorem C10_mergeListTagged_is_mergeListList (d : Tagged) (s : List Val) :
+    match mergeListTagged d s with
+    | .ok t => mergeListList (d.map (·.1)) s = .ok (.list (t.map (·.1)))
+    | .error e => e = .unmodelled ∨ mergeListList (d.map (·.1)) s = .error e :=
+  mergeListTagged_agrees d s
+
+/-- A referenced list of plain entries (no `$delete` / `$match` / `$replace` directives) is
+    appended, as copies, to the host entries (minus `$required` markers). -/
+theorem C10_mergeListTagged_plain (d : Tagged) {s : List Val} (h : s.all plainEntry = true) :
+    mergeListTagged d s =
+      .ok (d.filter (fun x => !(x.1 == .str "$required")) ++ s.map (·, none)) :=
+  mergeListTagged_plain d h
+
+example : [Val.int 1, .map [("x", .int 2)]].all plainEntry = true := by decide
+
+/-- Simplest instance: the list is just `[{$merge: ref}]` and the referenced list consists of
+    plain entries, none of which is a `{$replace: _}` entry: the result is the evaluation of the
+    entries of the referenced list in order (as copies, nulls dropped); the root is unchanged. -/
+theorem C10_merge_list_single {fuel : Nat} {docs : List Val} {root : Val} {loc : Loc}
+    {ref : Val} {s : List Val} (hg : get root docs ref = .ok (.list s))
+    (hs : s.all plainEntry = true) (hr : ∀ v ∈ s, notReplaceEntry v = true) :
+    process1 (fuel + 1) docs root loc (.list [.map [("$merge", ref)]]) =
+      (evalCopies fuel docs root s >>= fun vs => pure (.list vs, root)) := by
+  rw [C10_merge_list (listMerges_merge_entry ref), hg, R_bind_ok, listObj0_merge_entry]
+  simp only [mergeListTagged_plain [] hs, List.filter_nil, List.nil_append, R_bind_ok]
+  unfold listFinish
+  have hmap : (s.map (·, (none : Option Nat))).map (·.1) = s := by
+    simp [List.map_map, Function.comp_def]
+  rw [hmap, popListMapValue_no_replace hr, R_bind_ok]
+  simp only [Val.isNull, Bool.not_true, Bool.false_eq_true, if_false]
+  have hfil : (s.map (·, (none : Option Nat))).filter (fun x => notReplaceEntry x.1) =
+      s.map (·, none) := by
+    rw [List.filter_eq_self]
+    intro a ha
+    obtain ⟨v, hv, rfl⟩ := List.mem_map.1 ha
+    exact hr v hv
+  rw [hfil, foldlM_entryStep_copies]
+  unfold evalCopies
+  cases s.mapM (fun v => process1 fuel docs root none v) <;> rfl
+
+example :
+    let root : Val := .map [("l", .list [.int 1, .str "x"])]
+    get root [] (.list [.str "l"]) = .ok (.list [.int 1, .str "x"]) ∧
+    [Val.int 1, .str "x"].all plainEntry = true ∧
+    ∀ v ∈ [Val.int 1, .str "x"], notReplaceEntry v = true :=
+  ⟨get_list_strs _ _ "l" [], by decide, by decide⟩
+
+/-- `plainEntry` alone is not enough for `C10_merge_list_single`: a referenced list containing a
+    `{$replace: ref2}` entry is replaced by the evaluation of `ref2`. -/
+theorem C10_merge_list_single_needs_no_replace_entry :
+    let root : Val := .map [("l", .list [.map [("$replace", .list [.str "z"])]]), ("z", .int 7)]
+    [Val.map [("$replace", .list [.str "z"])]].all plainEntry = true ∧
+    process1 2 [] root none (.list [.map [("$merge", .list [.str "l"])]]) = .ok (.int 7, root) := by
+  intro root
+  refine ⟨by decide, ?_⟩
+  have hg : get root [] (.list [.str "l"]) = .ok (.list [.map [("$replace", .list [.str "z"])]]) :=
+    get_list_strs _ _ "l" []
+  have hz : get root [] (.list [.str "z"]) = .ok (.int 7) := get_list_strs _ _ "z" []
+  rw [C10_merge_list (listMerges_merge_entry _), hg, R_bind_ok, listObj0_merge_entry]
+  simp only [mergeListTagged_plain [] (by decide : [Val.map [("$replace", .list [.str "z"])]].all plainEntry = true),
+    List.filter_nil, List.nil_append, R_bind_ok]
+  unfold listFinish
+  have := popListMapValue_one_replace (pre := []) (post := []) (.list [.str "z"]) (by simp)
+  simp only [List.nil_append, List.append_nil] at this
+  simp only [List.map_cons, List.map_nil, this, R_bind_ok, Val.isNull, Bool.not_false, if_true, hz]
+  exact process1_int _ _ _ _ _
+
+/-- the referenced value is `null`: nothing is merged in -/
+theorem C10_merge_list_single_null {fuel : Nat} {docs : List Val} {root : Val} {loc : Loc}
+    {ref : Val} (hg : get root docs ref = .ok .null) :
+    process1 (fuel + 1) docs root loc (.list [.map [("$merge", ref)]]) = .ok (.list [], root) := by
+  rw [C10_merge_list (listMerges_merge_entry ref), hg, R_bind_ok, listObj0_merge_entry]
+  rfl
+
+example : get (.map [("l", .null)]) [] (.list [.str "l"]) = .ok .null := get_list_strs _ _ "l" []
+
+/-- the referenced value is neither a list nor `null`: a type error -/
+theorem C10_merge_list_nonlist {fuel : Nat} {docs : List Val} {root : Val} {loc : Loc}
+    {xs : List Val} {ref inp : Val} (h : listMerges xs = [ref]) (hg : get root docs ref = .ok inp)
+    (h1 : inp.isList = false) (h2 : inp.isNull = false) :
+    process1 (fuel + 1) docs root loc (.list xs) = .error .invalidType := by
+  rw [C10_merge_list h, hg, R_bind_ok]
+  cases inp <;> simp [Val.isList, Val.isNull] at h1 h2 <;> rfl
+
+example : get (.map [("l", .int 3)]) [] (.list [.str "l"]) = .ok (.int 3) :=
+  get_list_strs _ _ "l" []
+
+/-- A list whose only directive entry is one `{$replace: ref}` (non-null `ref`) evaluates to the
+    evaluation of the referenced value; all other entries are discarded. -/
+theorem C10_replace_list {fuel : Nat} {docs : List Val} {root : Val} {loc : Loc}
+    {pre post : List Val} {ref : Val} (h : ∀ v ∈ pre ++ post, listDirective v = false)
+    (hn : ref.isNull = false) :
+    process1 (fuel + 1) docs root loc (.list (pre ++ [.map [("$replace", ref)]] ++ post)) =
+      (get root docs ref >>= process1 fuel docs root none) := by
+  have hm : ∀ v ∈ pre ++ [.map [("$replace", ref)]] ++ post, notMergeEntry v = true := by
+    intro v hv
+    simp only [List.mem_append, List.mem_singleton] at hv
+    rcases hv with (hv | rfl) | hv
+    · exact notMergeEntry_of_not_directive (h v (List.mem_append_left _ hv))
+    · simp [notMergeEntry]
+    · exact notMergeEntry_of_not_directive (h v (List.mem_append_right _ hv))
+  rw [process1_list, listMerges_of_notMerge hm, foldlM_nil, R_bind_ok]
+  unfold listFinish
+  rw [listObj0_fst, List.filter_eq_self.2 hm,
+    popListMapValue_one_replace ref (fun x hx => notReplaceEntry_of_not_directive (h x hx)),
+    R_bind_ok]
+  simp only [hn, Bool.not_false, if_true]
+
+example : (∀ v ∈ [Val.int 1] ++ [Val.str "x"], listDirective v = false) ∧
+    (Val.str "a").isNull = false := by decide
+
+/-- Simplest instance: `[{$replace: ref}]`. -/
+theorem C10_replace_list_single {fuel : Nat} {docs : List Val} {root : Val} {loc : Loc}
+    {ref : Val} (hn : ref.isNull = false) :
+    process1 (fuel + 1) docs root loc (.list [.map [("$replace", ref)]]) =
+      (get root docs ref >>= process1 fuel docs root none) :=
+  C10_replace_list (pre := []) (post := []) (by simp) hn
+
+/-! ## a dangling reference is an error, never silently dropped -/
+
+theorem C10_dangling_is_error_map_merge {fuel : Nat} {docs : List Val} {root : Val} {loc : Loc}
+    {kvs : Fields} {ref : Val} {e : Err} (hm : fget kvs "$merge" = some ref)
+    (hg : get (setLoc root loc (.map (fdel kvs "$merge"))) docs ref = .error e) :
+    process1 (fuel + 1) docs root loc (.map kvs) = .error e := by
+  rw [process1_map_merge hm, hg]; rfl
+
+theorem C10_dangling_is_error_map_replace {fuel : Nat} {docs : List Val} {root : Val} {loc : Loc}
+    {kvs : Fields} {ref : Val} {e : Err} (h0 : fget kvs "$merge" = none)
+    (h : fget kvs "$replace" = some ref) (hg : get root docs ref = .error e) :
+    process1 (fuel + 1) docs root loc (.map kvs) = .error e := by
+  rw [process1_map_replace h0 h, hg]; rfl
+
+theorem C10_dangling_is_error_string_merge {fuel : Nat} {docs : List Val} {root : Val} {loc : Loc}
+    {s p : String} {e : Err} (h : stripPrefix s "$merge:" = some p)
+    (hg : get root docs (.str p) = .error e) :
+    process1 (fuel + 1) docs root loc (.str s) = .error e := by
+  rw [process1_str_merge h, hg]; rfl
+
+theorem C10_dangling_is_error_string_replace {fuel : Nat} {docs : List Val} {root : Val}
+    {loc : Loc} {s p : String} {e : Err} (h0 : stripPrefix s "$merge:" = none)
+    (h : stripPrefix s "$replace:" = some p) (hg : get root docs (.str p) = .error e) :
+    process1 (fuel + 1) docs root loc (.str s) = .error e := by
+  rw [process1_str_replace h0 h, hg]; rfl
+
+/-- list form: the first `{$merge: ref}` entry of the list dangles -/
+theorem C10_dangling_is_error_list_merge {fuel : Nat} {docs : List Val} {root : Val} {loc : Loc}
+    {xs : List Val} {ref : Val} {rest : List Val} {e : Err} (h : listMerges xs = ref :: rest)
+    (hg : get root docs ref = .error e) :
+    process1 (fuel + 1) docs root loc (.list xs) = .error e := by
+  rw [process1_list, h, foldlM_cons]
+  simp only [mergeRefStep, hg]; rfl
+
+theorem C10_dangling_is_error_list_replace {fuel : Nat} {docs : List Val} {root : Val} {loc : Loc}
+    {pre post : List Val} {ref : Val} {e : Err} (h : ∀ v ∈ pre ++ post, listDirective v = false)
+    (hn : ref.isNull = false) (hg : get root docs ref = .error e) :
+    process1 (fuel + 1) docs root loc (.list (pre ++ [.map [("$replace", ref)]] ++ post)) =
+      .error e := by
+  rw [C10_replace_list h hn, hg]; rfl
+
+-- non-vacuity: a path that does not exist in the document, and a string reference to it
+example : get (.map [("a", .int 1)]) [] (.list [.str "zz"]) = .error .refNotFound :=
+  get_list_strs _ _ "zz" []
+example : get (.map [("b", .int 1)]) [] (.str "a") = .error .refNotFound := by
+  rw [get_str]; simp only [getPathFromString, parseRef_a, splitOn_a]; rfl
+example (ref : Val) :
+    listMerges ([.int 1] ++ [.map [("$merge", ref)]] ++ [.str "x"]) = ref :: [] :=
+  listMerges_single ref (by decide)
+
+/-! ## reference resolution: `get`, cross-document references, `getPath` -/
+
+/-- map form of a cross-document reference -/
+theorem C10_cross_doc_map (root : Val) (docs : List Val) (pat path : Val) :
+    get root docs (.map [("$match", pat), ("$path", path)]) =
+      (getCrossDoc docs pat >>= fun d => get d docs path) := by
+  rw [get_map]
+  simp [fget]
+
+/-- map form without `$path`: the whole matched document -/
+theorem C10_cross_doc_map_nopath (root : Val) (docs : List Val) (pat : Val) :
+    get root docs (.map [("$match", pat)]) = getCrossDoc docs pat := by
+  rw [get_map]
+  simp only [fget, if_true]
+  have : ("$match" = "$path") = False := by decide
+  simp only [this, if_false]
+  cases getCrossDoc docs pat <;> rfl
+
+/-- list form of a cross-document reference: first entry a map or list pattern -/
+theorem C10_cross_doc_list (root : Val) (docs : List Val) (pat : Val) (rest : List Val)
+    (hp : pat.isMap = true ∨ pat.isList = true) :
+    get root docs (.list (pat :: rest)) =
+      (getCrossDoc docs pat >>= fun d => toStringList rest >>= getPath d) := by
+  rw [get_list]
+  cases pat <;> simp [Val.isMap, Val.isList] at hp <;> rfl
+
+example : (Val.map [("kind", .str "x")]).isMap = true ∨ (Val.map [("kind", .str "x")]).isList = true :=
+  Or.inl rfl
+
+/-- the two forms agree for string paths -/
+theorem C10_cross_doc_forms_agree (root : Val) (docs : List Val) (p : Fields) (ps : List String) :
+    get root docs (.list (.map p :: ps.map .str)) =
+      get root docs (.map [("$match", .map p), ("$path", .list (ps.map .str))]) := by
+  rw [C10_cross_doc_map, C10_cross_doc_list _ _ _ _ (Or.inl rfl), toStringList_strs]
+  congr 1
+  funext d
+  cases ps with
+  | nil => rw [get_list]; rfl
+  | cons a tl => exact (get_list_strs d docs a tl).symm
+
+/-- exactly one document of the stream must match -/
+theorem C10_cross_zero_or_many_is_error (docs : List Val) (pat : Val) :
+    (docs.filter (fun d => matchV d pat) = [] → getCrossDoc docs pat = .error .noMatchFound) ∧
+    (∀ d, docs.filter (fun d => matchV d pat) = [d] → getCrossDoc docs pat = .ok d) ∧
+    (2 ≤ (docs.filter (fun d => matchV d pat)).length → getCrossDoc docs pat = .error .multiMatch) := by
+  unfold getCrossDoc
+  refine ⟨fun h => by rw [h]; rfl, fun d h => by rw [h]; rfl, fun h => ?_⟩
+  match hf : docs.filter (fun d => matchV d pat), h with
+  | [], h => simp at h
+  | [_], h => simp at h
+  | _ :: _ :: _, _ => rfl
+
+example : [Val.map [("k", .int 1)], .map [("k", .int 2)]].filter
+    (fun d => matchV d (.map [("k", .int 1)])) = [.map [("k", .int 1)]] := by decide
+example : [Val.map [("k", .int 1)], .map [("k", .int 2)]].filter
+    (fun d => matchV d (.map [("k", .int 3)])) = [] := by decide
+example : 2 ≤ ([Val.map [("k", .int 1)], .map [("k", .int 1)]].filter
+    (fun d => matchV d (.map [("k", .int 1)]))).length := by decide
+
+/-- a map reference without `$match` is an error -/
+theorem C10_missing_match_is_error (root : Val) (docs : List Val) (conf : Fields)
+    (h : fget conf "$match" = none) : get root docs (.map conf) = .error .missingMatch := by
+  rw [get_map, h]
+
+example : fget [("$path", Val.str "a")] "$match" = none := by decide
+
+/-- A single-key `{$merge|$replace|$encode: _}` map (an unexpanded placeholder) never matches a
+    map pattern (without `$invert: true`). -/
+theorem C10_placeholder_never_matches (k : String) (v : Val) (pat : Fields)
+    (hk : k = "$merge" ∨ k = "$replace" ∨ k = "$encode")
+    (hi : fhasBool pat "$invert" true = false) :
+    matchV (.map [(k, v)]) (.map pat) = false := by
+  have hp : isPlaceholder [(k, v)] = true := by
+    rcases hk with rfl | rfl | rfl <;> simp [isPlaceholder]
+  simp [matchV, hp, hi]
+
+example : fhasBool ([] : Fields) "$invert" true = false := by decide
+
+/-- … and with `$invert: true` the pattern therefore always matches it. -/
+theorem C10_placeholder_invert_matches (k : String) (v : Val) (pat : Fields)
+    (hk : k = "$merge" ∨ k = "$replace" ∨ k = "$encode")
+    (hi : fhasBool pat "$invert" true = true) :
+    matchV (.map [(k, v)]) (.map pat) = true := by
+  have hp : isPlaceholder [(k, v)] = true := by
+    rcases hk with rfl | rfl | rfl <;> simp [isPlaceholder]
+  simp [matchV, hp, hi]
+
+example : fhasBool [("$invert", Val.bool true)] "$invert" true = true := by decide
+
+theorem C10_getPath_spec :
+    (∀ obj : Val, getPath obj [] = .ok obj) ∧
+    (∀ (kvs : Fields) (p : String) (ps : List String),
+      getPath (.map kvs) (p :: ps) =
+        (fget kvs p).elim (.error .refNotFound) (fun v => getPath v ps)) ∧
+    (∀ (obj : Val) (p : String) (ps : List String), obj.isMap = false →
+      getPath obj (p :: ps) = .error .refNotFound) := by
+  refine ⟨fun _ => rfl, fun kvs p ps => ?_, fun obj p ps h => ?_⟩
+  · simp only [getPath]
+    cases fget kvs p <;> rfl
+  · cases obj <;> simp [Val.isMap] at h <;> rfl
+
+/-! ## the referenced subtree (and everything else outside the host) is left unchanged -/
+
+/-- Copies never write to the root. -/
+theorem C10_copies_never_write_root {fuel : Nat} {docs : List Val} {root obj v root' : Val}
+    (h : process1 fuel docs root none obj = .ok (v, root')) : root' = root :=
+  process1_frame fuel docs root none obj v root' h
+
+/-- Frame property: evaluating the value at location `p` changes the root at most below `p`;
+    every location `q` disjoint from `p` (neither a prefix of the other) keeps its content. -/
+theorem C10_target_unchanged {fuel : Nat} {docs : List Val} {root obj v root' : Val}
+    {p q : List PathElem} (h : process1 fuel docs root (some p) obj = .ok (v, root'))
+    (h1 : ¬ p <+: q) (h2 : ¬ q <+: p) : getLoc root' q = getLoc root q :=
+  process1_frame fuel docs root (some p) obj v root' h q ⟨h1, h2⟩
+
+/-- In particular a reference path that is disjoint from the host resolves to the same value
+    (or the same `refNotFound`) before and after. -/
+theorem C10_target_unchanged_getPath {fuel : Nat} {docs : List Val} {root obj v root' : Val}
+    {p : List PathElem} {ks : List String}
+    (h : process1 fuel docs root (some p) obj = .ok (v, root'))
+    (h1 : ¬ p <+: ks.map .key) (h2 : ¬ ks.map .key <+: p) : getPath root' ks = getPath root ks := by
+  rw [getPath_eq_getLoc, getPath_eq_getLoc, C10_target_unchanged h h1 h2]
+
+-- non-vacuity: host `a: {$merge: [b], x: 1}`, target `b: {y: 2}`; evaluating the host at
+-- location `a` expands it in place and leaves `b` alone
+example :
+    process1 3 []
+      (.map [("a", .map [("$merge", .list [.str "b"]), ("x", .int 1)]), ("b", .map [("y", .int 2)])])
+      (some [.key "a"]) (.map [("$merge", .list [.str "b"]), ("x", .int 1)]) =
+      .ok (.map [("x", .int 1), ("y", .int 2)],
+           .map [("a", .map [("x", .int 1), ("y", .int 2)]), ("b", .map [("y", .int 2)])]) ∧
+    ¬ [PathElem.key "a"] <+: ["b"].map .key ∧ ¬ ["b"].map PathElem.key <+: [.key "a"] := by
+  refine ⟨?_, by decide, by decide⟩
+  rw [C10_merge_map_ok (kvs := [("$merge", .list [.str "b"]), ("x", .int 1)])
+    (s := [("y", .int 2)]) (next := [("x", .int 1), ("y", .int 2)]) (ref := .list [.str "b"])
+    (by decide) (get_list_strs _ _ "b" []) (by decide)
+    (show merge (.map (fdel [("$merge", .list [.str "b"]), ("x", .int 1)] "$merge"))
+      (.map [("y", .int 2)]) = _ from merge_x_y)]
+  have hroot : setLoc (setLoc
+      (.map [("a", .map [("$merge", .list [.str "b"]), ("x", .int 1)]), ("b", .map [("y", .int 2)])])
+      (some [.key "a"]) (.map (fdel [("$merge", .list [.str "b"]), ("x", .int 1)] "$merge")))
+      (some [.key "a"]) (.map [("x", .int 1), ("y", .int 2)]) =
+      .map [("a", .map [("x", .int 1), ("y", .int 2)]), ("b", .map [("y", .int 2)])] := by decide
+  rw [hroot, process1_map_plain (by decide) (by decide)]
+  have hx : stripPrefix "x" "$merge:" = none ∧ stripPrefix "x" "$replace:" = none := by
+    constructor <;> (simp only [stripPrefix]; split <;> simp_all)
+  have hy : stripPrefix "y" "$merge:" = none ∧ stripPrefix "y" "$replace:" = none := by
+    constructor <;> (simp only [stripPrefix]; split <;> simp_all)
+  have e1 : fset (fset [] "x" (Val.int 1)) "y" (.int 2) = [("x", .int 1), ("y", .int 2)] := by decide
+  simp only [foldlM_cons, foldlM_nil, mapStep, process1_int, process1_str_plain hx.1 hx.2,
+    process1_str_plain hy.1 hy.2, R_bind_ok, R_pure, Val.isNull, Bool.false_eq_true, if_false, e1]
+
+/-! ## cycles -/
+
+/-- A reference cycle of length 1 is reported, whatever the fuel. -/
+theorem C10_self_reference_is_error (fuel : Nat) :
+    process1 fuel [] (.map [("a", .str "$merge:a")]) (some [])
+      (.map [("a", .str "$merge:a")]) = .error .circularRef := by
+  have hstr : ∀ fuel loc, process1 fuel [] (.map [("a", .str "$merge:a")]) loc
+      (.str "$merge:a") = .error .circularRef := by
+    intro fuel
+    induction fuel with
+    | zero => intro loc; exact process1_zero _ _ _ _
+    | succ n ih =>
+      intro loc
+      rw [process1_str_merge stripPrefix_merge_a,
+        get_plain_key (v := .str "$merge:a") [] parseRef_a splitOn_a (by decide), R_bind_ok]
+      exact ih none
+  cases fuel with
+  | zero => exact process1_zero _ _ _ _
+  | succ n =>
+    rw [process1_map_plain (by decide) (by decide), foldlM_cons]
+    simp only [mapStep, hstr]; rfl
+
+/-- A reference cycle of length 2 is reported, whatever the fuel. -/
+theorem C10_two_cycle_is_error (fuel : Nat) :
+    process1 fuel [] (.map [("a", .str "$merge:b"), ("b", .str "$merge:a")]) (some [])
+      (.map [("a", .str "$merge:b"), ("b", .str "$merge:a")]) = .error .circularRef := by
+  have hstr : ∀ fuel loc,
+      process1 fuel [] (.map [("a", .str "$merge:b"), ("b", .str "$merge:a")]) loc
+        (.str "$merge:b") = .error .circularRef ∧
+      process1 fuel [] (.map [("a", .str "$merge:b"), ("b", .str "$merge:a")]) loc
+        (.str "$merge:a") = .error .circularRef := by
+    intro fuel
+    induction fuel with
+    | zero => intro loc; exact ⟨process1_zero _ _ _ _, process1_zero _ _ _ _⟩
+    | succ n ih =>
+      intro loc
+      constructor
+      · rw [process1_str_merge stripPrefix_merge_b,
+          get_plain_key (v := .str "$merge:a") [] parseRef_b splitOn_b (by decide), R_bind_ok]
+        exact (ih none).2
+      · rw [process1_str_merge stripPrefix_merge_a,
+          get_plain_key (v := .str "$merge:b") [] parseRef_a splitOn_a (by decide), R_bind_ok]
+        exact (ih none).1
+  cases fuel with
+  | zero => exact process1_zero _ _ _ _
+  | succ n =>
+    rw [process1_map_plain (by decide) (by decide), foldlM_cons]
+    simp only [mapStep, (hstr _ _).1]; rfl
+
+/-- At the depth limit used by `processDoc`, both cycles are therefore `circularRef`. -/
+theorem C10_self_reference_processDoc (env : Vars) :
+    processDoc [] env (.map [("a", .str "$merge:a")]) = .error .circularRef := by
+  unfold processDoc
+  rw [C10_self_reference_is_error]; rfl
+
 end Bkl
